@@ -73,6 +73,25 @@ func worker(args []string) int {
 		}
 		ctx.LC = lc
 	}
+	if spec.StallSeconds > 0 && os.Getenv("VERIF_NO_WATCHDOG") == "" {
+		spec.StallSeconds = int(envInt("VERIF_STALL_S", int64(spec.StallSeconds)))
+		go func() {
+			last := ctx.Seq()
+			lastChange := time.Now()
+			for {
+				time.Sleep(2 * time.Second)
+				if cur := ctx.Seq(); cur != last {
+					last, lastChange = cur, time.Now()
+				} else if time.Since(lastChange) > time.Duration(spec.StallSeconds)*time.Second {
+					fmt.Fprintf(os.Stderr, "STALL: no new case for %d s (case #%d)\n", spec.StallSeconds, cur)
+					buf := make([]byte, 1<<16)
+					n := runtime.Stack(buf, true)
+					os.Stderr.Write(buf[:n])
+					os.Exit(97)
+				}
+			}
+		}()
+	}
 	spec.Run(ctx)
 	rep := rec.Finish()
 	if err := rep.WriteFile(*out); err != nil {
@@ -334,6 +353,11 @@ func drive(args []string) int {
 		}
 	}
 
+	var covSummary map[string]*funcCov
+	covNote := ""
+	if os.Getenv("VERIF_COVER") != "0" && len(spec.CoverFuncs) > 0 && spec.Binary == "" {
+		covSummary, covNote = coveragePass(spec, *prop, *tier, seed, nshards, *bindir, runDir)
+	}
 	wall := time.Since(start).Seconds()
 	verdict := "held"
 	if len(fresh) > 0 {
@@ -341,7 +365,7 @@ func drive(args []string) int {
 	} else if len(inconclusive) > 0 {
 		verdict = "inconclusive"
 	}
-	writeEvidence(spec, merged, *tier, seed, wall, len(fresh), verdict, inconclusive, nshards, knownHit)
+	writeEvidence(spec, merged, *tier, seed, wall, len(fresh), verdict, inconclusive, nshards, knownHit, covSummary, covNote)
 	fmt.Printf("%s %s seed=%d: %s — %d distinct cases (%d generated duplicates skipped), %d monitored executions, %d non-trivial, %d violations, %.1fs\n",
 		*prop, *tier, seed, verdict, merged.Cases, merged.Duplicates, merged.Evaluations, merged.Nontrivial, len(fresh), wall)
 	switch verdict {
@@ -395,6 +419,39 @@ func runShard(bin string, spec *monitor.Spec, prop, tier string, seed int64, i, 
 	if rep, rerr := h.ReadReport(out); rerr == nil {
 		res.rep = rep
 	}
+	if ee, ok := err.(*exec.ExitError); ok && ee.ExitCode() == 97 {
+		// stall watchdog fired: confirm by replaying the single logged case alone under a generous limit
+		_, meta, input, lerr := h.ReadLastCase(lc)
+		os.Remove(lc)
+		res.errText = "stall watchdog fired"
+		if lerr != nil {
+			res.timedOut = true
+			return res
+		}
+		v := h.Violation{Property: prop, Oracle: "non-termination (stall confirmed by single-case replay)", Entry: strings.TrimSpace(meta), Family: "lastcase", InputB64: h.B64(input), InputQ: h.Quote(input), Seed: seed, Tier: tier}
+		v.Key = "hang|" + v.Entry + "|" + v.InputQ
+		rf := filepath.Join(runDir, fmt.Sprintf("stall-%d.json", i))
+		b, _ := json.Marshal(v)
+		os.WriteFile(rf, b, 0o644)
+		rc := exec.Command(bin, "replay", "-file", rf)
+		rc.Env = append(os.Environ(), "VERIF_NO_WATCHDOG=1")
+		rdone := make(chan error, 1)
+		if rc.Start() == nil {
+			go func() { rdone <- rc.Wait() }()
+			select {
+			case <-rdone:
+				res.timedOut = true // replay finished: the stall is not confirmed => inconclusive
+				res.errText = "stall watchdog fired but the single-case replay finished"
+			case <-time.After(time.Duration(envInt("VERIF_CONFIRM_S", 600)) * time.Second):
+				rc.Process.Kill()
+				<-rdone
+				res.crash = &v
+			}
+		} else {
+			res.timedOut = true
+		}
+		return res
+	}
 	if err != nil {
 		// the child died: attribute to the last case it logged
 		lf.Sync()
@@ -419,7 +476,7 @@ func runShard(bin string, spec *monitor.Spec, prop, tier string, seed int64, i, 
 	return res
 }
 
-func writeEvidence(spec *monitor.Spec, rep *h.Report, tier string, seed int64, wall float64, nviol int, verdict string, inconclusive []string, nshards int, knownHit map[string]int) {
+func writeEvidence(spec *monitor.Spec, rep *h.Report, tier string, seed int64, wall float64, nviol int, verdict string, inconclusive []string, nshards int, knownHit map[string]int, codeCov map[string]*funcCov, covNote string) {
 	cov := map[string]interface{}{
 		"evaluations":         rep.Evaluations,
 		"distinct_nontrivial": rep.Nontrivial,
@@ -455,6 +512,17 @@ func writeEvidence(spec *monitor.Spec, rep *h.Report, tier string, seed int64, w
 	}
 	if len(knownHit) > 0 {
 		cov["known_findings_hit"] = knownHit
+	}
+	if codeCov != nil {
+		tb, th := 0, 0
+		for _, fc := range codeCov {
+			tb += fc.Blocks
+			th += fc.Hit
+		}
+		cov["code_reached_in_rjson"] = map[string]interface{}{"note": covNote, "functions": codeCov, "reachable_blocks_total": tb, "blocks_hit_total": th,
+			"what": "which basic blocks (machine transitions, float-conversion branches) of the anchored functions the workload drove; evidence of reach only, never a verdict"}
+	} else if covNote != "" {
+		cov["code_reached_in_rjson"] = map[string]interface{}{"note": covNote}
 	}
 	if spec.Exhaustive != "" {
 		cov["exhaustive_part"] = spec.Exhaustive
